@@ -80,7 +80,11 @@ def check_auto(ctx):
     inst = [a.arg for a in fi.node.args.args][1]
     for p in w.paths(fi.node, cls=au):
         sets = {canon(e.name): e for e in p.setattrs() if canon(e.obj) == inst}
-        if FLAG in sets and isinstance(sets[FLAG].value, ast.Constant) and sets[FLAG].value.value is True:
+        removed = [e for e in p.all_effects() if (e.kind == 'call' and call_name(e.call) == 'delattr' and e.call.args and canon(e.call.args[0]) == inst)
+                   or (e.kind == 'del' and canon(getattr(e.obj, 'value', e.obj)) == inst)]
+        if removed:
+            ctx.violation(rule, fi, '__delete__: %s' % removed[0].text()[:80], 'deleting the attribute also removes a slot of the packet: nothing re-creates it until the next pack or assignment, so a second delete (or a read of the raw slot, repr, ==) raises AttributeError', removed[0].lineno, clause='a', witness=True)
+        elif FLAG in sets and isinstance(sets[FLAG].value, ast.Constant) and sets[FLAG].value.value is True:
             ctx.holds(rule, fi, '__delete__: flag := True', 'reads as the computed value again', fi.node.lineno, clause='a')
         else:
             ctx.violation(rule, fi, '__delete__: %s' % [e.text() for e in p.setattrs()], 'deleting the attribute must re-enable the computed value (flag := True)', fi.node.lineno, clause='a')
